@@ -43,6 +43,7 @@ def run(ctx, tier):
                  ("R2", "validation-only early returns are placed where nothing later can fail"),
                  ("R3", "expansion divisor coupled to the percent-escape length"),
                  ("R4", "input parsed against a base only if the base is valid"),
+                 ("R7", "a size-checked parse against a base uses a base built by the storing parser"),
                  ("R5", "fast validator's accepted host bytes"),
                  ("R6", "fast validator defers every possibly-IPv4 host (case-insensitively)")):
         ctx.rule(r, t)
@@ -222,6 +223,60 @@ def check(ctx, fx):
                               "behind base_agg.is_valid", "the input is parsed against a base whose validity is not "
                               "established on every path", where=s["loc"].replace("/repo/", ""))
     ctx.floor("R4", nb, 2, "parses of the input against a base")
+
+    # ---- R7: a size-checked parse against a base needs a base that was itself built by the storing parser
+    def storing(call):
+        return ", true>" in (call.get("callee") or "")
+    producers = {}          # local id -> [(storing?, loc)]
+    for n, s, b in C.all_nodes(f):
+        if s.get("k") == "decl":
+            for v in s["vars"]:
+                for c in X.walk(v.get("init")):
+                    if c.get("k") == "call" and c.get("qname") == IMPL:
+                        producers.setdefault(v["id"], []).append((storing(c), s.get("loc", "")))
+        if n.get("k") in ("assign", "call") and n.get("op") == "=":
+            tgt = X.strip(n.get("lhs") if n.get("k") == "assign" else n.get("recv"))
+            src = n.get("rhs") if n.get("k") == "assign" else (n.get("args") or [None])[0]
+            if isinstance(tgt, dict) and tgt.get("k") == "ref":
+                for c in X.walk(src):
+                    if c.get("k") == "call" and c.get("qname") == IMPL:
+                        producers.setdefault(tgt["id"], []).append((storing(c), s.get("loc", "")))
+    ptr_targets = {}        # pointer local id -> ids of objects whose address it is given
+    for n, s, b in C.all_nodes(f):
+        if n.get("k") == "assign" and n.get("op") == "=":
+            l0, r0 = X.strip(n["lhs"]), X.strip(n["rhs"])
+            if isinstance(l0, dict) and l0.get("k") == "ref" and isinstance(r0, dict) and r0.get("k") == "un" and r0.get("op") == "&":
+                o = X.strip(r0["e"])
+                if isinstance(o, dict) and o.get("k") == "ref":
+                    ptr_targets.setdefault(l0["id"], set()).add(o["id"])
+    n7 = 0
+    seen7 = set()
+    for n, s, b in C.all_nodes(f):
+        if not (n.get("k") == "call" and n.get("qname") == IMPL and len(n.get("args", [])) > 1) or id(n) in seen7:
+            continue
+        seen7.add(id(n))
+        a1 = X.strip(n["args"][1])
+        if isinstance(a1, dict) and a1.get("k") == "lit":
+            continue
+        objs = set()
+        if isinstance(a1, dict) and a1.get("k") == "un" and a1.get("op") == "&":
+            o = X.strip(a1["e"])
+            if isinstance(o, dict) and o.get("k") == "ref":
+                objs.add(o["id"])
+        elif isinstance(a1, dict) and a1.get("k") == "ref":
+            objs |= ptr_targets.get(a1["id"], set())
+        if not objs:
+            ctx.broken("R7: cannot tell which object `%s` points to in can_parse" % X.show(a1))
+        n7 += 1
+        prods = [p for o in objs for p in producers.get(o, [])]
+        bad = [loc for (st, loc) in prods if storing(n) and not st]
+        ctx.check("R7", "can_parse: base of the %s parse at %s" % ("size-checked" if storing(n) else "validation-only",
+                                                                    s.get("loc", "").replace("/repo/", "").split(":", 1)[1]),
+                  bool(prods) and not bad, "built by the %s parser" % ("storing" if storing(n) else "validation-only"),
+                  "the size-checked parse resolves the input against a base built by the validation-only instantiation (at %s): that "
+                  "object stops at the path and carries no path/query, so the href whose length is compared with the limit is "
+                  "shorter than the one parse() builds" % ", ".join(sorted(set(x.replace("/repo/", "") for x in bad))), where=s.get("loc", "").replace("/repo/", ""))
+    ctx.floor("R7", n7, 2, "parses of the input against a base object")
 
     # ---- R5 / R6 ----
     v = fx.fn1("ada::(anonymous namespace)::try_can_parse_absolute_fast")
